@@ -120,53 +120,67 @@ VerName(v) == CASE v = "total" -> "t" [] v = "delta" -> "d" [] v = "total+delta"
 (* version vector of a line over the dynamic clause positions of its rule *)
 LineVer(rule, line, dyn) == [ i \in DynPositions(rule, dyn) |-> VerName(line.items[i].ver) ]
 
-(* ---- matching a clause the way the generated code does, given the index the macro chose for it ---- *)
+(* ---- matching a clause the way the generated code does, given the index the macro chose for it ----                 *)
+(* G = the variables bound before the clause (in the order the clauses are executed).                                   *)
+(* looked-up clause (iter = FALSE): the index columns are compared with the values computed from G; a variable argument  *)
+(*   outside the index is assigned from the row if it is new, and IGNORED (neither compared nor assigned) if it is in G.  *)
+(* iterated clause (iter = TRUE, the first clause of a simple join): every variable argument is assigned from the row,    *)
+(*   shadowing whatever was bound under that name.                                                                        *)
+(* Independently of the execution order, an argument that repeats a variable FIRST bound inside the same clause (in   *)
+(* the textual order of the rule), or an expression over such a variable, was desugared into a fresh variable plus an  *)
+(* equality condition (rule_desugar_repeated_vars): such positions (`rep`) are always compared.                        *)
 IdxSet(li) == { li.idx[j] : j \in 1..Len(li.idx) }
 
-RECURSIVE MatchIdx(_, _, _, _, _, _)
-MatchIdx(args, idx, t, i, env, here) ==
-   IF i > Len(args) THEN {env}
-   ELSE LET a == args[i] IN
-      IF i \in idx
-      THEN \* part of the lookup key: the value is computed from what is bound so far and compared with the column
-           LET v == CASE a.k = "v" -> IF a.n \in DOMAIN env THEN << env[a.n] >> ELSE <<>>
-                      [] a.k = "c" -> << a.v >>
-                      [] a.k = "e" -> << EvalE(a.e, env) >>
-                      [] OTHER     -> <<>>
-           IN  IF v # <<>> /\ v[1] = t[i] THEN MatchIdx(args, idx, t, i + 1, env, here) ELSE {}
-      ELSE CASE a.k = "w" -> MatchIdx(args, idx, t, i + 1, env, here)
-             [] a.k = "v" -> IF a.n \in here
-                             THEN \* repeated inside the clause: desugared into a fresh variable and an equality condition
-                                  (IF env[a.n] = t[i] THEN MatchIdx(args, idx, t, i + 1, env, here) ELSE {})
-                             ELSE \* bound from the row; an earlier binding of the same name is shadowed, not compared
-                                  MatchIdx(args, idx, t, i + 1, (a.n :> t[i]) @@ env, here \cup {a.n})
-             [] a.k = "c" -> IF t[i] = a.v THEN MatchIdx(args, idx, t, i + 1, env, here) ELSE {}
-             [] a.k = "e" -> IF EvalE(a.e, env) = t[i] THEN MatchIdx(args, idx, t, i + 1, env, here) ELSE {}
-             [] a.k = "p" -> UNION { MatchIdx(args, idx, t, i + 1, e2, here) : e2 \in MatchP(a.p, t[i], env) }
+RepPos(rule, i) ==
+   LET args == rule.body[i].args
+       G0 == BoundBefore(rule, i)
+       firstHere(j) == { args[k].n : k \in { k2 \in 1..(j - 1) : args[k2].k = "v" /\ args[k2].n \notin G0 } }
+   IN  { j \in 1..Len(args) : \/ (args[j].k = "v" /\ args[j].n \in firstHere(j))
+                               \/ (args[j].k = "e" /\ ExprVars(args[j].e) \cap firstHere(j) # {}) }
 
-StepItemC(it, li, env, db, sjFirst) ==
+RECURSIVE MatchIdx(_, _, _, _, _, _, _, _)
+MatchIdx(args, idx, rep, t, i, env, G, iter) ==
+   IF i > Len(args) THEN {env}
+   ELSE LET a == args[i]
+            next(e) == MatchIdx(args, idx, rep, t, i + 1, e, G, iter)
+            val == CASE a.k = "v" -> IF a.n \in DOMAIN env THEN << env[a.n] >> ELSE <<>>
+                     [] a.k = "c" -> << a.v >>
+                     [] a.k = "e" -> << EvalE(a.e, env) >>
+                     [] OTHER     -> <<>>
+        IN
+      IF i \in rep \/ (~iter /\ i \in idx)
+      THEN IF val # <<>> /\ val[1] = t[i] THEN next(env) ELSE {}
+      ELSE CASE a.k = "w" -> next(env)
+             [] a.k = "v" -> IF a.n \in G /\ ~iter THEN next(env) ELSE next((a.n :> t[i]) @@ env)
+             [] a.k = "c" -> IF t[i] = a.v THEN next(env) ELSE {}
+             [] a.k = "e" -> IF EvalE(a.e, env) = t[i] THEN next(env) ELSE {}
+             [] a.k = "p" -> UNION { next(e2) : e2 \in MatchP(a.p, t[i], env) }
+
+StepItemC(rule, k, li, env, db, sjFirst) ==
+   LET it == rule.body[k]
+       G == DOMAIN env IN
    CASE it.t = "cl" ->
-          \* the first clause of a simple join is iterated completely (its index columns are the join key)
-          CondsEnvs(it.conds, 1, UNION { MatchIdx(it.args, IF sjFirst THEN {} ELSE IdxSet(li), t, 1, env, {}) : t \in db[it.rel] })
+          CondsEnvs(it.conds, 1, UNION { MatchIdx(it.args, IdxSet(li), RepPos(rule, k), t, 1, env, G, sjFirst) : t \in db[it.rel] })
      [] it.t = "neg" ->
-          IF \E t \in db[it.rel] : MatchIdx(it.args, IdxSet(li), t, 1, env, {}) # {} THEN {} ELSE {env}
+          IF \E t \in db[it.rel] : MatchIdx(it.args, IdxSet(li), {}, t, 1, env, G, FALSE) # {} THEN {} ELSE {env}
      [] it.t = "agg" ->
-          LET M == { t \in db[it.rel] : MatchIdx(it.args, IdxSet(li), t, 1, env, {}) # {} }
+          LET G2 == G \ { it.bound[j] : j \in 1..Len(it.bound) }
+              M == { t \in db[it.rel] : MatchIdx(it.args, IdxSet(li), {}, t, 1, env, G2, FALSE) # {} }
               sq == SetToSeq(M)
               bag == [ i \in 1..Len(sq) |->
-                        LET e2 == CHOOSE x \in MatchIdx(it.args, IdxSet(li), sq[i], 1, env, {}) : TRUE
+                        LET e2 == CHOOSE x \in MatchIdx(it.args, IdxSet(li), {}, sq[i], 1, env, G2, FALSE) : TRUE
                         IN [ j \in 1..Len(it.bound) |-> e2[it.bound[j]] ] ]
               res == AggApply(it.f, bag)
           IN UNION { MatchP(it.p, res[i], env) : i \in 1..Len(res) }
      [] OTHER -> StepItem(it, env, db)
 
-RECURSIVE EnvsC(_, _, _, _, _, _)
-EnvsC(items, line, i, envs, db, sjAt) ==
-   IF i > Len(items) \/ envs = {} THEN envs
-   ELSE EnvsC(items, line, i + 1, UNION { StepItemC(items[i], line.items[i], e, db, i = sjAt) : e \in envs }, db, sjAt)
+RECURSIVE EnvsC(_, _, _, _, _, _, _)
+EnvsC(rule, line, i, hi, envs, db, sjAt) ==       \* body items i..hi of the rule
+   IF i > hi \/ envs = {} THEN envs
+   ELSE EnvsC(rule, line, i + 1, hi, UNION { StepItemC(rule, i, line.items[i], e, db, i = sjAt) : e \in envs }, db, sjAt)
 
 ConseqC(rule, line, db) ==
-   LET es == EnvsC(rule.body, line, 1, { <<>> }, db, IF line.sj THEN FirstClause(rule) ELSE 0)
+   LET es == EnvsC(rule, line, 1, Len(rule.body), { <<>> }, db, IF line.sj THEN FirstClause(rule) ELSE 0)
    IN  { << rule.heads[h].rel, [ i \in 1..Len(rule.heads[h].args) |-> EvalE(rule.heads[h].args[i], e) ] >> :
             h \in 1..Len(rule.heads), e \in es }
 
@@ -209,24 +223,20 @@ CodePlanResult(P0, edb) ==
    IN  EvalSccsC(P, rs, SccsOf(P0), 1, init)
 
 --------------------------------------------------------------------------------
-(* the swapped order of a reorderable simple join: the clause at position i+1 is iterated over all its rows and binds *)
-(* ALL its argument variables afresh (an earlier binding of the same name is shadowed, not compared); then the clause *)
-(* at position i is looked up (its variables shared with the other clause are now bound, i.e. compared); then the     *)
-(* conditions attached to the two clauses                                                                            *)
-ArgVars(args) == { args[j].n : j \in { k \in 1..Len(args) : args[k].k = "v" } }
-Forget(env, vs) == [ x \in (DOMAIN env) \ vs |-> env[x] ]
-
-SwappedEnvs(items, i, envs, db) ==
-   LET c1 == items[i]
-       c2 == items[i + 1]
-       after2 == UNION { UNION { MatchFrom(c2.args, t, 1, Forget(e, ArgVars(c2.args))) : t \in db[c2.rel] } : e \in envs }
-       after1 == UNION { UNION { MatchFrom(c1.args, t, 1, e) : t \in db[c1.rel] } : e \in after2 }
+(* the swapped order of a reorderable simple join (compile_mir_rule_inner swaps the two body items and compiles the    *)
+(* result as an ordinary simple join): the clause at position i+1 becomes the ITERATED clause, the clause at position i *)
+(* the LOOKED-UP one (by its own index columns, the join columns); then the conditions attached to the two clauses.    *)
+SwappedEnvs(rule, line, i, envs, db) ==
+   LET c1 == rule.body[i]
+       c2 == rule.body[i + 1]
+       after2 == UNION { UNION { MatchIdx(c2.args, {}, RepPos(rule, i + 1), t, 1, e, DOMAIN e, TRUE) : t \in db[c2.rel] } : e \in envs }
+       after1 == UNION { UNION { MatchIdx(c1.args, IdxSet(line.items[i]), RepPos(rule, i), t, 1, e, DOMAIN e, FALSE) : t \in db[c1.rel] } : e \in after2 }
    IN  CondsEnvs(c2.conds, 1, CondsEnvs(c1.conds, 1, after1))
 
-ConseqSwapped(rule, i, db) ==
-   LET pre == Envs(SubSeq(rule.body, 1, i - 1), 1, { <<>> }, db)
-       mid == SwappedEnvs(rule.body, i, pre, db)
-       es == Envs(SubSeq(rule.body, i + 2, Len(rule.body)), 1, mid, db)
+ConseqSwapped(rule, line, i, db) ==
+   LET pre == EnvsC(rule, line, 1, i - 1, { <<>> }, db, 0)
+       mid == SwappedEnvs(rule, line, i, pre, db)
+       es == EnvsC(rule, line, i + 2, Len(rule.body), mid, db, 0)
    IN  { << rule.heads[h].rel, [ k \in 1..Len(rule.heads[h].args) |-> EvalE(rule.heads[h].args[k], e) ] >> :
             h \in 1..Len(rule.heads), e \in es }
 
@@ -235,10 +245,10 @@ ReorderSafe(P0, db) ==
    LET P == Elaborate(P0)
        rs == ConjRules(P)
    IN  \A a \in 1..Len(rs) :
-          (\E l \in AllLines(P0) : LineOf(rs, a, l) /\ l.sj /\ ~l.nr)
-          => LET i == FirstClause(rs[a]) IN
+          \A l \in { l2 \in AllLines(P0) : LineOf(rs, a, l2) /\ l2.sj /\ ~l2.nr } :
+             LET i == FirstClause(rs[a]) IN
              i > 0 /\ i < Len(rs[a].body) /\ rs[a].body[i + 1].t = "cl"
-             /\ ConseqSwapped(rs[a], i, db) = Conseq(rs[a], db)
+             /\ ConseqSwapped(rs[a], l, i, db) = Conseq(rs[a], db)
 
 (* negative control: the model's own plan printed in the code's format with EVERY simple join marked reorderable *)
 (* must violate ReorderSafe on corpus program not_reorderable (engines/semlib.py)                                   *)
